@@ -232,7 +232,8 @@ func monC04(c *drv.Ctx) {
 			}
 		})
 		if !returned {
-			return // inconclusive (reported by the driver); the abandoned call keeps the reader
+			cs.Fail("operation-never-returned", M{"reader": "bytes", "op": []string{"Next", "Peek", "Skip"}[kind]}, M{"n": n, "data_len": L, "message": "the call had not returned after 60 s"})
+			return // the abandoned call keeps the reader
 		}
 		if pnc != nil {
 			panic(pnc)
